@@ -326,6 +326,8 @@ def gen_cases(rng, tier):
         header = r.sample(FIELD_POOL, ncol)
         if r.chance(15):
             header[r.below(ncol)] = r.choice(["my-name", "1337", "with space", "x(y)", "_source", "_odd"])
+        elif r.chance(12):
+            header[r.below(ncol - 1)] = ""       # an unnamed column (an index-column export `,name,score`): still a column
         nrow = r.randint(4, 9)
         words = ["alpha", "beta", "gamma7", "delta_x", "0", "42", "3.14", "Zed", "hello world", "a-b", "x.y", "Q", "",
                  "CamelCase", "snake_case", "mixed 12 tokens", "é", "日本"]
